@@ -47,6 +47,22 @@ class H:
         self.stack = stack
 
 
+def empty_value(rng, sh):
+    """the value of this shape with nothing in it (numbers are arbitrary)"""
+    k = sh[0]
+    if k == "bytes":
+        return b""
+    if k == "list":
+        return []
+    if k == "opt":
+        return None if rng.below(3) == 0 else (empty_value(rng, sh[1]),)
+    if k == "res":
+        return ("ok", empty_value(rng, sh[1])) if rng.below(2) else ("err", empty_value(rng, sh[2]))
+    if k == "tup":
+        return [empty_value(rng, x) for x in sh[1]]
+    return gen_value(rng, sh)
+
+
 class RB:
     def __init__(self, prop, cat, rng, stack=None, tags=()):
         self.cat = cat
@@ -61,11 +77,16 @@ class RB:
         self.float_same = self.collapse and has_f64(self.sh)
         self.idx_cmp = "status"
         self.forms_used = set()
+        # one script in six lives on degenerate values (empty strings / lists / rows at every leaf): states in which
+        # offsets, strides and "last" markers stay at zero although items were pushed
+        self.empty_mode = rng.fork().below(6) == 0
 
     # -- values
     def value(self, repeat_of=None):
         if repeat_of is not None and self.rng.chance(1, 2):
             return repeat_of
+        if self.empty_mode and self.rng.below(8) != 0:
+            return empty_value(self.rng, self.sh)
         return gen_value(self.rng, self.sh)
 
     def form_for(self, v, forms=None):
